@@ -148,7 +148,8 @@ def pool_materials():
     for n in "abc":
         mats.append(("ecdsa", f"ec-{n}", {"spki": (common.KEYS / f"ec-{n}.spki.der").read_bytes(),
                                          "pk8": (common.KEYS / f"ec-{n}.pk8.der").read_bytes()}))
-    for n in ("2048-a", "2048-b", "3072-a", "4096-a"):
+    # incl. two keys with unusual public exponents (0x800001: top bit of the top byte set; 0x100000001: 5 bytes)
+    for n in ("2048-a", "2048-b", "3072-a", "4096-a", "2048-e800001", "2048-e100000001"):
         mats.append(("rsa", f"rsa-{n}", {"spki": (common.KEYS / f"rsa-{n}.spki.der").read_bytes(),
                                         "pk8": (common.KEYS / f"rsa-{n}.pk8.der").read_bytes()}))
     return mats
